@@ -50,16 +50,22 @@ func bigSpec(variant int) string {
 	return string(bs)
 }
 
+// a components section that holds nothing components.go is written for (a security scheme and a
+// shared parameter only)
+const specOnlyParamsAndSecurity = `{"openapi":"3.0.3","info":{"title":"t","version":"1"},"security":[{"jwt":[]}],"paths":{"/pets":{"get":{"parameters":[{"$ref":"#/components/parameters/Limit"}],"responses":{"200":{"description":"ok","content":{"application/json":{"schema":{"type":"object","properties":{"n":{"type":"integer"}}}}}},"default":{"description":"d"}}}}},"components":{"securitySchemes":{"jwt":{"type":"http","scheme":"bearer"}},"parameters":{"Limit":{"in":"query","name":"limit","schema":{"type":"integer"}}}}}`
+
 func dirSpec(i int) string {
 	switch i {
 	case 3, 4:
 		return bigSpec(i - 3)
+	case 5:
+		return specOnlyParamsAndSecurity
 	}
 	return []string{specWithComponents, specNoComponents, specNoOperations}[i]
 }
 
 type dirInv struct {
-	Spec   int // 0 with components, 1 without, 2 without operations, 3 / 4 the two big variants
+	Spec   int // 0 with components, 1 without, 2 without operations, 3 / 4 the two big variants, 5 components that need no components.go
 	Client bool
 	API    bool
 	DNE    bool // --donotedit
@@ -118,7 +124,7 @@ func facetDir(args []string) error {
 	rng := NewPRNG(*seed)
 
 	var invs []dirInv
-	for s := 0; s < 5; s++ {
+	for s := 0; s < 6; s++ {
 		for _, e := range []bool{true, false} {
 			if s >= 3 && !e {
 				continue // the big variants only with the header
